@@ -1322,6 +1322,46 @@ func inlineOvertake(m *meta, rng *rand.Rand, round int) {
 	m.count("inline_overtake_rounds")
 }
 
+// closedSetAsync (C08): once Close has returned every SetAsync fails with ErrCacheClosed, also when its inline attempt
+// cannot even start (the drain token is busy) and with several callers at once; nothing becomes resident.
+func closedSetAsync(m *meta, rng *rand.Rand, round int) {
+	pol := pick(rng, []kioshun.EvictionPolicy{kioshun.LRU, kioshun.FIFO, kioshun.LFU, kioshun.SieveTinyLFU})
+	ctx := fmt.Sprintf("closed SetAsync round %d policy %v", round, pol)
+	c, err := kioshun.New[int, int](kioshun.Config{MaxSize: 64, ShardCount: 1, EvictionPolicy: pol})
+	must(err)
+	watch(ctx)
+	defer unwatch()
+	c.Set(1, 1, kioshun.NoExpiration)
+	c.Close()
+	c.VerifHoldDrain(0, true)
+	e1 := c.SetAsync(2, 2, kioshun.NoExpiration)
+	c.VerifHoldDrain(0, false)
+	if !errors.Is(e1, kioshun.ErrCacheClosed) {
+		m.violate("C08", fmt.Sprintf("%s: Close returned, then SetAsync(2,2) issued while the shard's drain token was busy returned %v instead of ErrCacheClosed", ctx, e1), ctx)
+	}
+	var wg sync.WaitGroup
+	var accepted atomic.Int64
+	for g := 0; g < 6; g++ {
+		wg.Add(1)
+		go func(g int) {
+			defer wg.Done()
+			for i := 0; i < 300; i++ {
+				if err := c.SetAsync(10+g, i, kioshun.NoExpiration); !errors.Is(err, kioshun.ErrCacheClosed) {
+					accepted.Add(1)
+				}
+			}
+		}(g)
+	}
+	wg.Wait()
+	if n := accepted.Load(); n > 0 {
+		m.violate("C08", fmt.Sprintf("%s: after Close returned, %d of 1800 concurrent SetAsync calls (6 goroutines) did not fail with ErrCacheClosed", ctx, n), ctx)
+	}
+	if n := len(c.Keys()); n != 0 || c.Size() != 0 {
+		m.violate("C08", fmt.Sprintf("%s: a closed cache reports %d keys, size %d", ctx, n, c.Size()), ctx)
+	}
+	m.count("closed_setasync_rounds")
+}
+
 // deleteBehindQueue (C01, C04): a SetAsync(k,v2) that was accepted and is still queued (the drain token is busy), then
 // Delete(k): the Delete began after the SetAsync returned, so after Sync the key must be gone.
 func deleteBehindQueue(m *meta, rng *rand.Rand, round int) {
@@ -1751,6 +1791,7 @@ func streamConc(o opts) {
 			ttlBoundaryProbe(m, rng, r)
 			deleteBehindQueue(m, rng, r)
 			inlineOvertake(m, rng, r)
+			closedSetAsync(m, rng, r)
 			doubleClear(m, rng, r)
 			m.nontrivial(fmt.Sprintf("async+close/%d", r%16))
 		case 3:
